@@ -59,6 +59,12 @@ int main(int argc, char **argv)
             opn2_setNumChips(dev, 1);
             if(installBanks(dev, c["banks"]) != 0) { fprintf(stderr, "INFRA: bank installation failed\n"); return 2; }
             opn2_setAutoArpeggio(dev, 0);
+            if(c.get("ports", 1) >= 2)
+            {
+                // two MIDI ports, as a song with FF 09 device names has them: channels 16..31 belong to the second one
+                playerOf(dev)->realTime_deviceSwitch(0, "A", 1);
+                playerOf(dev)->realTime_deviceSwitch(1, "B", 1);
+            }
             if(c.has("vm")) opn2_setVolumeRangeModel(dev, (int)c.get("vm"));
             if(c.has("smod")) opn2_setScaleModulators(dev, (int)c.get("smod"));
             if(c.has("frb")) opn2_setFullRangeBrightness(dev, (int)c.get("frb"));
